@@ -7,6 +7,9 @@ import CalVerif.Model.De
         cell   = `I:<i64>` `F:<16 hex>` `S:<utf8 hex|->` `B:0|1` `D:<16 hex>` `DI:<hex>` `DU:<hex>` `E:<kind>` `_`
         cfg    = `N` | `A` | `C` | `C/<hex>/<hex>…`
         shape  = `seq` | `map`
+        n      = number of `next` calls, or an op list `x,n2,s1,t2:3,k2,l,c,h` (next, nth(2), skip(1).next(), step_by(2).take(3),
+                 take(2), last(), count(), size_hint only — each on `by_ref()`; adaptors are mapped to the `next`/`nth`
+                 sequences std performs)
         sched  = `any,str,i64,…` (cell targets, cyclic per row)
         std    = `-` | `f<16 hex>=<hex>;p<hex>=<16 hex|x>;q<hex>=<8 hex|x>;…`  (f64::to_string, parse::<f64>, parse::<f32>)
       reply  = `<new> | <hint> | <item> | <hint> | …` (`n` items)
@@ -150,23 +153,90 @@ def showHint (st : DeState) : String :=
   | (lo, some hi) => s!"{lo},{hi}"
   | (lo, none) => s!"{lo},-"
 
-def runDe (std : Std) (r : Range.Rng Data) (cfg : Headers) (sh : Shape) (n : Nat) (sched : List Target) : String :=
+/-- one consumption step of the iterator, as the harness performs it on `&mut it` -/
+inductive Op where
+  | next                      -- `it.next()`
+  | nth (n : Nat)             -- `it.nth(n)`
+  | skip (k : Nat)            -- `it.by_ref().skip(k).next()`           (std: `nth(k)`)
+  | stepBy (k m : Nat)        -- `it.by_ref().step_by(k).take(m)`, all  (std: `nth(0)`, then `nth(k-1)` each)
+  | take (m : Nat)            -- `it.by_ref().take(m)`, all
+  | last                      -- `it.by_ref().last()`
+  | count                     -- `it.by_ref().count()`
+  | hint                      -- nothing (only `size_hint` again)
+
+def parseOp (w : String) : Option Op :=
+  if w = "x" then some .next else if w = "l" then some .last else if w = "c" then some .count
+  else if w = "h" then some .hint
+  else
+    let body := (w.drop 1).toString
+    if w.startsWith "n" then body.toNat?.map Op.nth
+    else if w.startsWith "s" then body.toNat?.map Op.skip
+    else if w.startsWith "k" then body.toNat?.map Op.take
+    else if w.startsWith "t" then
+      (match body.splitOn ":" with
+       | [a, b] => (match a.toNat?, b.toNat? with
+         | some k, some m => if k = 0 then none else some (Op.stepBy k m)
+         | _, _ => none)
+       | _ => none)
+    else none
+
+/-- `n` (a number) = `n` times `next`; else a comma-separated op list -/
+def parseOps (w : String) : Option (List Op) :=
+  match w.toNat? with
+  | some n => some (List.replicate n .next)
+  | none => (w.splitOn ",").mapM parseOp
+
+/-- pull with `step` until `None` or `m` items -/
+def pull (step : DeState → Option Item × DeState) : Nat → DeState → List Item → List Item × DeState
+  | 0, st, acc => (acc.reverse, st)
+  | m + 1, st, acc =>
+    match step st with
+    | (some it, st') => pull step m st' (it :: acc)
+    | (none, st') => (acc.reverse, st')
+
+def showItems (std : Std) (sched : List Target) (l : List Item) : String :=
+  if l.isEmpty then "-" else " & ".intercalate (l.map fun it => showItem std sched (some it))
+
+def runOp (std : Std) (sched : List Target) (sh : Shape) (st : DeState) : Op → String × DeState
+  | .next => let (it, st') := next st sh; (showItem std sched it, st')
+  -- `nth` past the end = `nth` to the end (an exhausted iterator stays exhausted): keeps huge `n` computable
+  | .nth n => let (it, st') := nth st sh (min n st.rows.length); (showItem std sched it, st')
+  | .skip k => let (it, st') := nth st sh (min k st.rows.length); (showItem std sched it, st')
+  | .stepBy k m =>
+    (match m with
+     | 0 => ("-", st)
+     | m + 1 =>
+       match nth st sh 0 with
+       | (none, st') => ("-", st')
+       | (some it, st') =>
+         let (l, st'') := pull (fun s => nth s sh (k - 1)) m st' []
+         (showItems std sched (it :: l), st''))
+  | .take m => let (l, st') := pull (fun s => next s sh) m st []; (showItems std sched l, st')
+  | .last =>
+    let (l, st') := pull (fun s => next s sh) (st.rows.length + 1) st []
+    (showItem std sched l.getLast?, st')
+  | .count =>
+    let (l, st') := pull (fun s => next s sh) (st.rows.length + 1) st []
+    (s!"count={l.length}", st')
+  | .hint => ("h", st)
+
+def runDe (std : Std) (r : Range.Rng Data) (cfg : Headers) (sh : Shape) (ops : List Op) (sched : List Target) : String :=
   match new std cfg r with
   | .err e => showErr e
   | .panic _ => "panic"
   | .ok st0 =>
-    let rec go (k : Nat) (st : DeState) (acc : List String) : List String :=
-      match k with
-      | 0 => acc.reverse
-      | k + 1 =>
-        let (it, st') := next st sh
-        go k st' (showHint st' :: showItem std sched it :: acc)
-    " | ".intercalate ("ok" :: showHint st0 :: go n st0 [])
+    let rec go (ops : List Op) (st : DeState) (acc : List String) : List String :=
+      match ops with
+      | [] => acc.reverse
+      | op :: rest =>
+        let (res, st') := runOp std sched sh st op
+        go rest st' (showHint st' :: res :: acc)
+    " | ".intercalate ("ok" :: showHint st0 :: go ops st0 [])
 
 def handle (line : String) : String :=
   match (match Wire.words line with | "hist" :: rest => rest | ws => ws) with
   | ["de", rg, cfg, sh, n, sched, std] =>
-    (match parseRange rg, parseCfg cfg, n.toNat?, (sched.splitOn ",").mapM parseTarget, parseStd std with
+    (match parseRange rg, parseCfg cfg, parseOps n, (sched.splitOn ",").mapM parseTarget, parseStd std with
      | some r, some c, some n, some sc, some t =>
        if sh = "seq" then runDe t.toStd r c .seq n sc
        else if sh = "map" then runDe t.toStd r c .map n sc
